@@ -214,6 +214,26 @@ class SA(np.ndarray):
         r = super().__array_function__(func, types_, args, kwargs)
         return _wrap(r)
 
+    # -- symbolic index: If-chain over the (concrete-size) axis instead of realising the index
+    def __getitem__(self, key):
+        if isinstance(key, (SymInt, Bit)) and self.ndim == 1:
+            k = key if isinstance(key, SymInt) else key.as_int()
+            cells = self.view(np.ndarray)
+            acc = cells[0]
+            for i in range(1, len(cells)):
+                acc = ite(SymBool(k.t == i), cells[i], acc)
+            return acc
+        return super().__getitem__(key)
+
+    def __setitem__(self, key, value):
+        if isinstance(key, (SymInt, Bit)) and self.ndim == 1:
+            k = key if isinstance(key, SymInt) else key.as_int()
+            cells = self.view(np.ndarray)
+            for i in range(len(cells)):
+                cells[i] = ite(SymBool(k.t == i), value, cells[i])
+            return
+        super().__setitem__(key, value)
+
     # -- methods numpy would route to C truthiness / numeric casts
     def astype(self, dtype, *a, **k):
         if dtype is str or (isinstance(dtype, str) and dtype in ('str', 'U', '<U1')):
@@ -351,10 +371,22 @@ def sa_where(cond, x=None, y=None):
     return _wrap(r) if isinstance(r, np.ndarray) else r
 
 
+def _as01(x):
+    """1 - bit (affine form 1 - b) is again a bit."""
+    if isinstance(x, SymInt) and x.aff is not None:
+        c0, terms = x.aff
+        if c0 == 1 and len(terms) == 1 and terms[0][1] == -1:
+            return Bit(core.z3_xor([terms[0][0]], const=True))
+        if c0 == 0 and len(terms) == 1 and terms[0][1] == 1:
+            return Bit(terms[0][0])
+    return x
+
+
 def ite(c: SymBool, a, b):
     """cell-level if-then-else."""
     if a is b:
         return a
+    a, b = _as01(a), _as01(b)
     if isinstance(a, (SymReal, float, np.floating)) or isinstance(b, (SymReal, float, np.floating)):
         return SymReal(z3.If(c.t, core.term_of(a, 'real'), core.term_of(b, 'real')))
     if isinstance(a, (SymBool, bool)) and isinstance(b, (SymBool, bool)):
